@@ -820,6 +820,25 @@ impl Interp {
         }
         if self.accounting && !self.leaked_by_panic {
             if let Some(db) = self.db.as_ref() {
+                // what the transaction tracker has registered = what the model says is alive
+                let (refs, valid, persistent) = db.verif_tracker_counts();
+                let psaves = self.committed.psave.len() as u64;
+                let valid_es = self.esaves.iter().flatten().filter(|e| !self.invalid_ranks.contains(&e.rank)).count() as u64;
+                let held_es = self.esaves.iter().flatten().count() as u64;
+                let readers = self.readers.iter().flatten().count() as u64;
+                if persistent != psaves {
+                    return Err(format!("after {what}: the transaction tracker has {persistent} persistent savepoint(s) registered, {psaves} exist"));
+                }
+                if valid != psaves + valid_es {
+                    return Err(format!(
+                        "after {what}: the transaction tracker has {valid} valid savepoint(s) registered, {psaves} persistent + {valid_es} ephemeral exist"
+                    ));
+                }
+                if refs < psaves + valid_es + readers || refs > psaves + held_es + readers {
+                    return Err(format!(
+                        "after {what}: the transaction tracker holds {refs} read reference(s); {readers} read transaction(s), {psaves} persistent and {valid_es} valid ({held_es} held) ephemeral savepoint(s) are alive"
+                    ));
+                }
                 crate::account::check(db).map_err(|e| format!("page accounting after {what}: {e}"))?;
                 if self.readers.iter().any(|r| r.is_some()) {
                     let alloc: BTreeSet<(u32, u32)> = crate::account::allocated_set(db)?.into_iter().collect();
